@@ -4,7 +4,6 @@ import amaranth.lib.memory as memory
 from amaranth_types import ShapeLike
 import amaranth_types.memory as amemory
 
-from transactron.utils.amaranth_ext.elaboratables import OneHotMux
 from transactron.utils.transactron_helpers import from_method_layout, make_layout
 from ..core import *
 from ..utils import SrcLoc, get_src_loc, MultiPriorityEncoder
@@ -123,26 +122,18 @@ class MemoryBank(Elaboratable):
 
         for i in range(self.reads_ports):
             if self.read_on_resp:
-                read_output_addr_match = [
-                    write_port[j].en & (write_port[j].addr == read_output_addr[i]) for j in range(self.writes_ports)
-                ]
-                overflow_addr_match = [
-                    write_port[j].en & (write_port[j].addr == overflow_addr[i]) for j in range(self.writes_ports)
-                ]
-                m.d.comb += read_output_next[i].eq(
-                    OneHotMux.create(
-                        m,
-                        [(read_output_addr_match[j], write_port[j].data) for j in range(self.writes_ports)],
-                        read_port[i].data,
-                    )
-                )
-                m.d.comb += overflow_next[i].eq(
-                    OneHotMux.create(
-                        m,
-                        [(overflow_addr_match[j], write_port[j].data) for j in range(self.writes_ports)],
-                        overflow_data[i],
-                    )
-                )
+
+                def written(addr: Value, old: Value) -> Value:
+                    # contents of row `addr` after this cycle's writes, merged at write granularity
+                    new = Value.cast(old)
+                    for port in write_port:
+                        granule = len(new) // len(port.en)
+                        mask = Cat(bit.replicate(granule) for bit in port.en) & (port.addr == addr).replicate(len(new))
+                        new = (new & ~mask) | (Value.cast(port.data) & mask)
+                    return new
+
+                m.d.comb += Value.cast(read_output_next[i]).eq(written(read_output_addr[i], read_port[i].data))
+                m.d.comb += Value.cast(overflow_next[i]).eq(written(overflow_addr[i], overflow_data[i]))
                 m.d.sync += overflow_data[i].eq(overflow_next[i])
             else:
                 m.d.comb += read_output_next[i].eq(read_port[i].data)
